@@ -72,8 +72,25 @@ def _classes(ctx):
                 yield c
 
 
+def _resume_position(ctx, rep):
+    """On resume the interpreter goes back to the start of the interrupted statement and skips it: a statement that
+    starts a line is preceded by the NUL separator *and* the 4-byte line header (link, line number), whose bytes may
+    look like separators -- they are read over before the search for the end of the statement."""
+    ss = ctx.fn(INTERP + ':Interpreter.__setstate__')
+    fl = ctx.flow(ss)
+    hdr = [c for c in own_nodes(ss) if isinstance(c, ast.Call) and norm(c.func) == 'ins.read' and [norm(a) for a in c.args] == ['4']]
+    skip = [c for c in own_nodes(ss) if isinstance(c, ast.Call) and norm(c.func) == 'ins.skip_to']
+    seek = [c for c in own_nodes(ss) if isinstance(c, ast.Call) and norm(c.func) == 'ins.seek' and [norm(a) for a in c.args] == ['self.current_statement']]
+    rep.ob('resume.line-header-skipped', 'resuming at a statement that starts a line reads over the 4-byte line header before looking for the statement end',
+           len(hdr) == 1 and len(skip) == 1 and len(seek) == 1 and fl.knows(hdr[0], 'ins.read(1) in tk.END_LINE', True)
+           and seek[0].lineno < hdr[0].lineno < skip[0].lineno and [norm(a) for a in skip[0].args] == ['tk.END_STATEMENT'],
+           'a NUL or `:` byte inside the line header (line numbers below 256, 58, multiples of 256 ...) is taken for the end of the statement: the resumed program continues in the middle of the header',
+           ctx.where(ss))
+
+
 def check(ctx, rep):
     _rebuilt_streams_keep_position(ctx, rep)
+    _resume_position(ctx, rep)
     keys = ctx.const(ST, 'HEADER_KEYS')
     fmt = ctx.const(ST, 'HEADER_FORMAT')
     nfields = len([c for c in fmt if c.isalpha()])
@@ -225,6 +242,8 @@ def variants(ctx):
         return lambda tree: f(mu.find_def(tree, path_fn))
 
     return [
+        Va('resume-does-not-skip-line-header', 'break', INTERP,
+           lambda tree: mu.replace_stmt(mu.find_def(tree, 'Interpreter.__setstate__'), lambda st: isinstance(st, ast.If) and 'tk.END_LINE' in norm(st.test), 'ins.read(1)'), expect='resume.line-header'),
         Va('field-buffer-position-lost', 'break', 'pcbasic/basic/devices/diskfiles.py',
            lambda tree: mu.remove_stmt(mu.find_def(tree, 'FieldFile.__setstate__'), mu.text_is('self._fhandle.seek(pos)')), expect='state.rebuilt-stream'),
         Va('format-version-unchecked', 'break', ST,
